@@ -194,6 +194,11 @@ func (e *env) bridgeCallFailures(r *rec, thorough bool) {
 		v.refundOther = true
 		vs = append(vs, v)
 	}
+	if thorough {
+		// the gas sweep also with two tokens and with a third-party refund address
+		vs = append(vs, variant{"gas-exhaustion-at-every-threshold/2-tokens", []scen.Token{e.usdt, e.fx}, "ok", -1, true, false},
+			variant{"gas-exhaustion-at-every-threshold/refund-to-third-party", []scen.Token{e.usdt}, "ok", -1, true, true})
+	}
 	for _, v := range vs {
 		base := world.Branch(e.ctx)
 		callee := w.Deploy(base, w.A("u2"), calleeProgram(e.usdt.ERC20, w.A("u2").Hex(), v.mode).InitCode())
